@@ -1,4 +1,5 @@
 import Proofs.Conc.Relay
+import Proofs.Conc.Seq
 /-!
 # C34 — Stored relay evidence stays exact under concurrent relays
 
@@ -66,6 +67,19 @@ theorem exact_under_interleaving_fails :
      .relay 0 .get, .relay 0 .add, .relay 0 .set, .relay 0 .respond,
      .relay 1 .get, .relay 1 .add, .relay 1 .set, .relay 1 .respond]
   revert this
+  decide
+
+/-! ### one at a time -/
+
+/-- **sequential_ok**: when relays and the claim sender take turns — each relay runs its five steps
+uninterrupted, the claim sender its two, in any order and any number of turns — the evidence is
+exact: no duplicate proof, at most `max` proofs, every answered relay recorded.  For all allowances
+and all requests (identical ones included). -/
+theorem sequential_ok (max : Nat) (ids : List P) (turns : List Turn) :
+    exact (run (init max ids) (seqSched turns)) = true :=
+  exact_of_quiet _ (quiet_seq turns _ (quiet_init max ids))
+
+example : storedProofs (run (init 2 [7, 7, 3, 4]) (seqSched [.relay 1, .relay 0, .claim, .relay 2, .relay 3])) = [7] := by
   decide
 
 /-! ### what does hold of the code as it is, for every schedule -/
